@@ -2,6 +2,7 @@ package rv
 
 import (
 	"go/token"
+	"strings"
 
 	"golang.org/x/tools/go/ssa"
 )
@@ -256,10 +257,29 @@ func runC10(r *Report) {
 			}
 			return false, false
 		}
-		for _, inc := range incs {
-			// every path from the increase to a return crosses an exit edge of the eviction loop:
-			// the edge on which size>max is false, or on which the cursor is nil.
-			bad := returnAvoiding(inc, func(from *ssa.BasicBlock, succ int) bool {
+		// the eviction loop may live in Update itself or in an unexported lru helper that Update calls
+		// after the increase (still under the lock)
+		loopFn := upd
+		var helperCall func(ssa.Instruction) bool
+		hasLoop := func(f *ssa.Function) bool {
+			for _, s := range CallSites(f, listRemove) {
+				if _, isphi := s.Call().Common().Args[1].(*ssa.Phi); isphi {
+					return true
+				}
+			}
+			return false
+		}
+		if !hasLoop(upd) {
+			for _, cs := range Sites(upd, func(in ssa.Instruction) bool { _, ok := in.(*ssa.Call); return ok }) {
+				callee := cs.Call().Common().StaticCallee()
+				if callee != nil && callee.Blocks != nil && strings.HasPrefix(FuncName(callee), "rueidis.(*lru).") && !isExportedName(callee.Name()) && hasLoop(callee) {
+					loopFn = callee
+					name := FuncName(callee)
+					helperCall = func(in ssa.Instruction) bool { _, ok := CallTo(in, name); return ok }
+				}
+			}
+		}
+		exitEdge := func(from *ssa.BasicBlock, succ int) bool {
 				iff, ok := from.Instrs[len(from.Instrs)-1].(*ssa.If)
 				if !ok {
 					return false
@@ -278,9 +298,20 @@ func runC10(r *Report) {
 					}
 				}
 				return false
-			})
+		}
+		for _, inc := range incs {
+			// every path from the increase to a return crosses an exit edge of the eviction loop:
+			// the edge on which size>max is false, or on which the cursor is nil.
+			bad := false
+			if helperCall == nil {
+				bad = returnAvoiding(inc, exitEdge)
+			} else {
+				mp, _ := MustPass(inc, helperCall)
+				bad = !mp || returnAvoiding(Site{loopFn, loopFn.Blocks[0], -1, nil}, exitEdge)
+			}
 			r.ObSite("R10d", inc, "evict-after-increase", !bad, "after c.size grows, every path to return must leave the eviction loop through `size > max` being false or the cursor (started at list.Front) being nil")
 		}
+		upd := loopFn // the loop rules below apply to the function that holds the loop
 		// the removal inside the loop: guarded by size>max and acts on a cursor that starts at Front and advances by Next
 		nLoop := 0
 		for _, s := range CallSites(upd, listRemove) {
